@@ -45,6 +45,18 @@ build() { # $1 = race|plain
 		sed -i 's/^go 1\.[0-9]*$/go 1.18/' "$SCRATCH/ggql/go.mod"
 		"$SCRATCH/bin/instrument" "$SCRATCH/ggql/pkg/ggql" >"$SCRATCH/instrument.json" 2>"$SCRATCH/instrument.err" || { cat "$SCRATCH/instrument.err"; fatal "instrumentation of the scratch copy failed"; }
 		export VERIF_BUILD_INFO="$(cat "$SCRATCH/instrument.json")"
+		python3 - "$SCRATCH/instrument.json" <<'PY'
+import json, sys
+d = json.load(open(sys.argv[1]))
+o = d.get("other_sync_primitives_not_owned_by_simulator") or []
+l = d.get("map_range_loops_not_rewritten") or []
+if o:
+    print("WARNING the tree uses synchronisation / time / randomness the simulator does not own (a task blocked in one of them stalls the run -> exit 2, never a VIOLATION):", ", ".join(o))
+if l:
+    print("WARNING map range loops left in Go's random order:", ", ".join(l))
+if d.get("mutex_type_sites_rewritten", 0) == 0:
+    print("WARNING no mutex found in the tree: lock scheduling points are gone")
+PY
 		flags=(-race -tags verifsim)
 	fi
 	( cd "$VERIF" && go build -modfile="$SCRATCH/go.mod" "${flags[@]}" -o "$SCRATCH/bin/verif" ./cmd/verif ) >"$SCRATCH/build.log" 2>&1 || { cat "$SCRATCH/build.log"; fatal "build of the harness against $REPO failed"; }
